@@ -868,13 +868,16 @@ func c12Scenarios(tier string) []*ConcScenario {
 	var scs []*ConcScenario
 	for pi, p := range progs {
 		for _, selDesc := range []bool{false, true} {
-			if tier == "quick" && selDesc && pi != 0 && pi != 3 {
+			if tier == "quick" && selDesc && pi == 2 {
 				continue
 			}
 			cc := c
 			cc.SelDesc = selDesc
 			ticks := ticks
-			if tier == "quick" && pi != 0 {
+			if tier == "quick" && (pi >= 2 || (pi == 1 && !selDesc)) {
+				// two ticks where they matter most: the single writer, and a
+				// second caller's signal left in flushNow while a tick comes
+				// due (descending select priority = ticker first)
 				ticks = 1
 			}
 			sc := &ConcScenario{Prop: "C12", Cfg: cc, Init: p.init, Threads: p.ths, Bound: bound, Ticks: ticks, Tick: int64(time.Second), Exec: execStore,
